@@ -2,7 +2,7 @@
 From Coq Require Import List NArith.
 From Coq.Strings Require Import Byte.
 From Model Require Import Bytes Frame Conn.
-From Proofs Require Import FrameFacts ApiFacts.
+From Proofs Require Import BuildTie FrameFacts ApiFacts.
 Import ListNotations.
 Open Scope N_scope.
 
@@ -59,3 +59,12 @@ Example C03_nonvacuous :
     Some (client_frame OP_TEXT false [x01; x02; x03; x04] [x68; x69], []) /\
   build OP_TEXT false [x01; x02; x03; x04] [x68; x69] = [x81; x82; x01; x02; x03; x04; x69; x6b].
 Proof. vm_compute. split; reflexivity. Qed.
+
+(* (regenerated, BuildTie.v) the bytes the RUNNING code writes for a frame -- Frame(opcode, payload, rsv1).to_bytes() executed
+   for text/binary (RSV1 clear and set) on 0, 1, 2, 124..128, 200, 65535, 65536, 65537 payload bytes and for
+   Close/Ping/Pong on 0, 1, 125 -- are the model's Frame.build byte for byte (whole frames up to 200 payload bytes, the
+   14 header bytes beyond): the decoder theorem above applies to the code where the length encodings change *)
+Theorem C03_running_code_builds_like_the_model :
+  forallb Proofs.BuildTie.row_ok Gen.GenBuild.impl_build_rows = true.
+Proof. exact Proofs.BuildTie.impl_build_is_model. Qed.
+Print Assumptions C03_running_code_builds_like_the_model.
